@@ -202,7 +202,7 @@ class EReject(Engine):
         elif how in ('append_token', 'pack', 'build', 'ctor'):
             name = g.pick(INT_TYPES)
             w = g.pick([1, 3, 8, 12, 16, 24, 33, 64, 70])
-            ev.update(name=name, w=w, v=boundary_values(g, name, w), cls=g.pick(CLASSES), form=g.pick(['colon', 'plain', 'kw']))
+            ev.update(name=name, w=w, v=boundary_values(g, name, w), cls=g.pick(CLASSES), form=g.pick(['colon', 'plain', 'kw']), scaled_first=g.chance(0.25))
         elif how == 'arr_iop':
             # an in-place element-wise operator whose result fits for some items and not for others
             d = self.arr.dtype
@@ -217,7 +217,7 @@ class EReject(Engine):
             ev.update(items=[g.pick([lo, hi, 0, g.int(lo, hi)]) for _ in range(g.int(0, 3))], i=g.int(0, 4), j=g.int(0, 4), trailing=g.bits(g.int(0, max(w - 1, 0))))
         elif how in ('arr_set', 'arr_append', 'arr_insert', 'arr_extend'):
             d = self.arr.dtype
-            ev.update(v=boundary_values(g, d.name, d.bitlength), i=g.int(-2, 5), v2=boundary_values(g, d.name, d.bitlength))
+            ev.update(v=boundary_values(g, d.name, d.bitlength), i=g.int(-2, 5), v2=boundary_values(g, d.name, d.bitlength), scaled_first=g.chance(0.25))
         elif how == 'digits':
             # a digit string with (or without) one character that is not a digit of the base, through every route
             name = g.pick(['hex', 'bin', 'oct'])
@@ -395,6 +395,18 @@ class EReject(Engine):
             w = ev.get('w', 8) if isinstance(ev.get('w', 8), int) else 8
             expect = in_range(name, w, v)
             trig = how
+            if ev.get('scaled_first') and 1 <= w <= 64 and v != 0:
+                # the same number was first encoded, legitimately, through a Dtype of the same name and length WITH a scale (a scale
+                # divides the value before encoding): that says nothing about the unscaled write that follows
+                k_ = 1
+                while not in_range(name, w, v // k_) and k_ < (1 << 80):
+                    k_ *= 2
+                st_s, d_s = call(B.Dtype, name, w, k_)
+                if st_s == 'ok':
+                    call(d_s.build, v)
+                    call(lambda: B.Array(d_s, [v]))
+                    self.probe('scaled_dtype_used_before_unscaled_write')
+                    trig = how + '|after-a-scaled-dtype-of-the-same-name'
             if how == 'append_token':
                 changed_key, want_len = tgt_name, n + w
                 st, r = call(tgt.append, f'{name}:{w}={v}' if ev.get('form') != 'plain' else f'{name}{w}={v}')
@@ -468,6 +480,16 @@ class EReject(Engine):
             expect = in_range(d.name, d.bitlength, v)
             changed_key = 'arr'
             trig = how
+            if ev.get('scaled_first') and v != 0 and d.bitlength <= 64:
+                k_ = 1
+                while not in_range(d.name, d.bitlength, v // k_) and k_ < (1 << 80):
+                    k_ *= 2
+                st_s, d_s = call(B.Dtype, d.name, d.bitlength, k_)
+                if st_s == 'ok':
+                    call(lambda: B.Array(d_s, [v]))
+                    call(d_s.build, v)
+                    self.probe('scaled_dtype_used_before_unscaled_write')
+                    trig = how + '|after-a-scaled-dtype-of-the-same-name'
             i = ev.get('i', 0) if isinstance(ev.get('i', 0), int) else 0
             if how == 'arr_set':
                 if not len(self.arr):
